@@ -15,7 +15,7 @@ PROPERTY = "C06"
 LEVEL = "exploration"
 BUDGET_S = {"quick": 50, "thorough": 700}
 FLOOR = {"quick": 2000, "thorough": 40000}
-MUST_REACH = ("native_fixpoints_judged", "foreign_convergence_judged", "config_level_judged", "structures_compared")
+MUST_REACH = ("native_fixpoints_judged", "foreign_convergence_judged", "config_level_judged", "structures_compared", "line_setter_reparses_judged")
 RULE = ("objects of every exported class from the supported grammars: ports (5 operators, names/numbers), protocols (all "
         "names, 0..255), options (flag/log tokens), wildcards, addresses and address-group members in every spelling, IOS "
         "and NX-OS address groups with/without sequence numbers, remarks with arbitrary printable words (leading digits, "
@@ -26,6 +26,9 @@ RULE = ("objects of every exported class from the supported grammars: ports (5 o
 ASSUMPTIONS = ["native = a spelling the platform's own configuration uses (IOS: any/host/A W/object-group; NX-OS: any/A/len/A W/"
                "addrgroup); prefix notation on IOS is an accepted foreign spelling (two-step convergence)",
                "data() is compared without uuid; IPv4Network values compare by value"]
+
+
+LIVE = {}
 
 
 def _build(cls_name, text, kwargs):
@@ -166,6 +169,28 @@ def execute(ctx, case: dict) -> None:
         m0, m1, m2 = (_meaning(cls_name, t, kwargs) for t in (text, r, r2))
         if m0 is not None and not (m0 == m1 == m2):
             ctx.violation(case, "a re-parse of a foreign spelling changed the meaning", {"input": m0, "r1": m1, "r2": m2})
+    if native and cls_name not in ("acls", "addrgroups", "aces"):
+        # the same parser reached through the `line` setter of a live object that held another text before:
+        # nothing of the earlier text (number, members, flags) may survive
+        key = (cls_name, repr(sorted(kwargs.items())))
+        prev = LIVE.get(key)
+        LIVE[key] = o2
+        if prev is not None and hasattr(type(prev), "line") and getattr(type(prev), "line").fset is not None:
+            try:
+                prev.line = r
+            except Exception as ex:  # pylint: disable=broad-except
+                ctx.violation(case, "the line setter of a live object rejects text the constructor accepts",
+                              {"rendered": r, "error": f"{type(ex).__name__}: {ex}"})
+            else:
+                ctx.count("line_setter_reparses_judged")
+                if _line(prev) != r:
+                    ctx.violation(case, "text assigned to the line of a live object renders differently than the same text in a new object",
+                                  {"assigned": r, "renders": _line(prev)})
+                else:
+                    diff = _diff(d1, _data(prev))
+                    if diff:
+                        ctx.violation(case, "a live object re-parsed through its line setter exports different data than a new object",
+                                      {"rendered": r, "difference": diff})
     if cls_name in ("acls", "addrgroups", "aces"):
         ctx.count("config_level_judged")
         if cls_name != "aces" and len(o1) != case.get("n_objects", len(o1)):
